@@ -576,6 +576,14 @@ func PointOp(kind string) {
 		return
 	}
 	s.yield(&pendingOp{kind: kind, enabled: alwaysEnabled})
+	// The point is an operation of the calling task like any other: executing it advances
+	// the task's private history, so the state in which it is pending (after whatever the
+	// harness did on the way in, e.g. a gauge increment) and the state at the task's next
+	// point (after the matching decrement) do not share a state key. Without this the
+	// explorer pruned the second as already explored (found with seeded change M13b).
+	t := s.cur
+	t.nops++
+	t.h = mix(t.h, hashStr(kind))
 }
 
 // Quiesce blocks until no other task is enabled (timers do not fire first unless
